@@ -208,6 +208,13 @@ mod masked {
 		pub decline_record_components: Vec<bool>,
 		/// Answer `None` from `visit_code` of the method with this ordinal.
 		pub decline_code: Vec<bool>,
+		/// Interests of single members where they differ from `field` / `method` / `code` / `record_component`, indexed like
+		/// the `decline_*` lists (the `code` ones by the ordinal of the method); a missing entry or `None` means the common one.
+		/// A visitor is free to answer `interests()` differently for every member it is handed.
+		pub field_overrides: Vec<Option<FieldInterests>>,
+		pub method_overrides: Vec<Option<MethodInterests>>,
+		pub code_overrides: Vec<Option<CodeMask>>,
+		pub record_component_overrides: Vec<Option<RecordComponentInterests>>,
 	}
 
 	/// One header the visitor was offered, in the order of the calls.
@@ -246,6 +253,10 @@ mod masked {
 
 	fn declined(list: &[bool], index: usize) -> bool {
 		list.get(index).copied().unwrap_or(false)
+	}
+
+	fn overridden<T: Copy>(list: &[Option<T>], index: usize, common: T) -> T {
+		list.get(index).copied().flatten().unwrap_or(common)
 	}
 
 	impl MultiClassVisitor for Masked {
@@ -362,7 +373,7 @@ mod masked {
 			if declined {
 				return Ok(ControlFlow::Break(self));
 			}
-			let interests = self.state.mask.record_component;
+			let interests = overridden(&self.state.mask.record_component_overrides, index, self.state.mask.record_component);
 			let MaskedClass { state, inner } = self;
 			Ok(match inner.visit_record_component(name, descriptor)? {
 				ControlFlow::Continue((residual, inner)) => ControlFlow::Continue(((state, residual), MaskedRecordComponent { interests, inner })),
@@ -386,7 +397,7 @@ mod masked {
 			if declined {
 				return Ok(ControlFlow::Break(self));
 			}
-			let interests = self.state.mask.field;
+			let interests = overridden(&self.state.mask.field_overrides, index, self.state.mask.field);
 			let MaskedClass { state, inner } = self;
 			Ok(match inner.visit_field(access, name, descriptor)? {
 				ControlFlow::Continue((residual, inner)) => ControlFlow::Continue(((state, residual), MaskedField { interests, inner })),
@@ -406,8 +417,8 @@ mod masked {
 			if declined {
 				return Ok(ControlFlow::Break(self));
 			}
-			let interests = self.state.mask.method;
-			let code = self.state.mask.code;
+			let interests = overridden(&self.state.mask.method_overrides, index, self.state.mask.method);
+			let code = overridden(&self.state.mask.code_overrides, index, self.state.mask.code);
 			let decline_code = declined_code(&self.state.mask, index);
 			let MaskedClass { state, inner } = self;
 			Ok(match inner.visit_method(access, name, descriptor)? {
